@@ -82,6 +82,19 @@ pub fn run_session(
     ns: NamespaceId,
     max_msgs: usize,
 ) -> R<Transcript> {
+    run_session_clocks(rt, init, resp, ns, max_msgs, None)
+}
+
+/// Like `run_session`; with `clocks = Some((initiator_now, responder_now))` the hooked clock is switched to the
+/// processing side's own value before every message (replicas with skewed clocks).
+pub fn run_session_clocks(
+    rt: &tokio::runtime::Runtime,
+    init: &mut Store,
+    resp: &mut Store,
+    ns: NamespaceId,
+    max_msgs: usize,
+    clocks: Option<(u64, u64)>,
+) -> R<Transcript> {
     rt.block_on(async {
         let mut t = Transcript::default();
         let init_peer = [0xA1u8; 32];
@@ -98,6 +111,9 @@ pub fn run_session(
                 break;
             }
             t.msgs.push(enc(&m));
+            if let Some((_, rc)) = clocks {
+                iroh_docs::verif::set_clock(Some(rc));
+            }
             let reply = es(b.sync_process_message(m, init_peer, &mut t.resp_out).await)?;
             let Some(reply) = reply else {
                 t.completed = true;
@@ -107,6 +123,9 @@ pub fn run_session(
                 break;
             }
             t.msgs.push(enc(&reply));
+            if let Some((ic, _)) = clocks {
+                iroh_docs::verif::set_clock(Some(ic));
+            }
             next = es(a.sync_process_message(reply, resp_peer, &mut t.init_out).await)?;
         }
         drop(a);
